@@ -419,10 +419,12 @@ def run(ctx, replay=None):
     return ctx.finish(
         rule="descriptions = every word of the bounded grammar of MC_Synthetic.tla (levels over Group/Package/Die/L3/L2/L1/Core/NUMA + PU, arities, attached NUMA "
              "nodes, sizes, explicit / type-named / step*nb index specifications, untyped levels) enumerated by TLC (BFS; stripes in the quick tier), the 128-level "
-             "boundary family, each rendered by the model, loaded for real, optionally made asymmetric by a restrict, exported with the 16 flag words (every buffer "
+             "boundary family, and the type-filter family (instruction-cache levels; per level type of the description every set_type_filter kind that differs "
+             "from the default, before or after set_synthetic, pairs and refused calls: what is attached to an ignored level must still be built), each rendered by the model, loaded for real, optionally made asymmetric by a restrict, exported with the 16 flag words (every buffer "
              "length for a rotating share of them), reloaded and re-exported; plus seeded hostile strings (mutations, brackets, huge numbers, bytes). "
              "A behaviour is non-trivial when set_synthetic was called.",
-        assumptions=["default type filters (instruction caches and memory-side caches are not built)",
+        assumptions=["type filters: defaults or set_type_filter on the level types of the description; Groups are never ignored (where hwloc hangs the memory of a NUMA level "
+                     "without Groups is not documented), memory-side caches stay filtered, untyped descriptions are loaded with default filters; the reload topology gets the same filters",
                      "level types appear in the conventional order Package, Die, L3, L2, L1, Core (hwloc orders identical objects by type, not by position)",
                      "the order convention of an explicit index list on NUMA nodes attached at several depths is not documented: only the set of indexes is demanded there",
                      "hostile strings that may describe more than 12000 objects, or that contain a number above 10^6 (a 512 MB cpuset per object), are parsed but not loaded; between 700 and 12000 objects the load is only watched for crashes"],
